@@ -66,6 +66,10 @@ struct DfsStats { uint64_t executions = 0, choice_points = 0, max_trace = 0, pru
 // outcome_bound: OUTCOME alternatives are free by default (all distinct results of a sub-enumeration are followed); for inputs
 // whose outcome sets multiply (tie-heavy dense graphs under many ranks) a harness may bound the number of non-default
 // outcomes per execution as well and must then report that bound.
+// A harness may install a stop predicate (its global deadline): the search then ends between two executions and the
+// input is reported as capped (never as exhaustively explored).
+inline std::function<bool()> &stop_hook() { static std::function<bool()> f; return f; }
+
 inline DfsStats dfs(const std::function<bool()> &run_one, int bound, uint64_t max_exec = UINT64_MAX, int outcome_bound = 1 << 30) {
     DfsStats st; st.bound = bound;
     struct Frame { std::vector<int> prefix; std::vector<Point> expect; };
@@ -75,6 +79,7 @@ inline DfsStats dfs(const std::function<bool()> &run_one, int bound, uint64_t ma
     while (!stack.empty()) {
         Frame f = std::move(stack.back()); stack.pop_back();
         if (st.executions >= max_exec) { st.capped = true; break; }
+        if (stop_hook() && (st.executions & 15) == 15 && stop_hook()()) { st.capped = true; break; }
         E.begin(f.prefix, f.expect);
         bool cont = run_one();
         E.end();
